@@ -29,6 +29,7 @@ import (
 
 	"verif/gen"
 	"verif/mon"
+	"verif/netx"
 )
 
 type optCase struct {
@@ -61,7 +62,7 @@ func makeOptCase(k int, rng *rand.Rand) *optCase {
 }
 
 func freeAddr() (string, error) {
-	l, err := net.Listen("tcp", "127.0.0.1:0")
+	l, err := net.Listen("tcp", netx.IP()+":0") // this process's own loopback address: no other process can be given the port
 	if err != nil {
 		return "", err
 	}
